@@ -28,7 +28,9 @@ func genFailAction(r *Rng) SrvAction {
 	case 1:
 		return SrvAction{Kind: "garbage"}
 	case 2:
-		return SrvAction{Kind: "reply", Code: 250, Text: "2.0.0 explicit ok"}
+		// positive replies, also of several lines (a queue id on a second line, ...): positions that expect
+		// another code (354 to DATA, 221 to QUIT, 220 greeting) take it as what it is, a wrong code
+		return SrvAction{Kind: "reply", Code: 250, Text: []string{"2.0.0 explicit ok", "2.0.0 Ok: message accepted\n2.0.0 queued as 42", "first line\nsecond line\nthird line", "2.1.5 ok\n2.1.5 really"}[r.Intn(4)]}
 	case 3, 4, 5, 6:
 		return SrvAction{Kind: "reply", Code: 400 + []int{21, 50, 51, 52, 41, 0, 99}[r.Intn(7)], Text: replyTexts[r.Intn(len(replyTexts))]}
 	default:
